@@ -16,8 +16,12 @@ SEEDED = os.path.join(VERIF, "seeded")
 SCRATCH = "/tmp/evalseed"
 
 
+ONLY = []
+
+
 def run_check(prop, env, jobs, tier):
-    p = subprocess.run([os.path.join(VERIF, "check"), prop, "--tier", tier, "--jobs", str(jobs)], cwd=VERIF, env=env,
+    extra = sum((["--harness", h] for h in ONLY), [])
+    p = subprocess.run([os.path.join(VERIF, "check"), prop, "--tier", tier, "--jobs", str(jobs)] + extra, cwd=VERIF, env=env,
                        stdout=subprocess.PIPE, stderr=subprocess.STDOUT, text=True)
     return p.returncode, p.stdout
 
@@ -62,7 +66,8 @@ def evaluate(sid, jobs, in_place, extra_props, tier):
     rec = {"seed": sid, "property": meta["property"], "tier": tier, "caught": own["exit"] == 1 and bool(own["violations"]),
            "caught_by_other_property": [p for p in props[1:] if results[p]["exit"] == 1 and results[p]["violations"]],
            "results": results, "wall_s": round(time.time() - t0, 1),
-           "how": "in place: git -C /repo apply; ./check; git -C /repo checkout -- ." if in_place else "scratch worktree + VERIF_REPO"}
+           "how": "in place: git -C /repo apply; ./check; git -C /repo checkout -- ." if in_place else "scratch worktree + VERIF_REPO",
+           "only_harnesses": list(ONLY)}
     json.dump(rec, open(os.path.join(d, f"result-{tier}.json" if tier != "quick" else "result.json"), "w"), indent=1)
     print(f"{sid}: {'CAUGHT' if rec['caught'] else 'missed'} exit={own['exit']} {[h for h, _ in own['failing_harnesses']]} {own['summary']} ({rec['wall_s']}s)", flush=True)
 
@@ -109,7 +114,11 @@ def main():
     ap.add_argument("--in-place", action="store_true")
     ap.add_argument("--also", default="", help="comma separated further properties to run against every seed")
     ap.add_argument("--tier", default="quick")
+    ap.add_argument("--harnesses", default="", help="comma separated: run only these harnesses (any tier) instead of the registered command; result goes to result-thorough.json")
     a = ap.parse_args()
+    if a.harnesses:
+        ONLY.extend(a.harnesses.split(","))
+        a.tier = "thorough"
     seeds = a.seeds or sorted(os.listdir(SEEDED))
     extra = [p for p in a.also.split(",") if p]
     q = queue.Queue()
